@@ -752,7 +752,13 @@ def s14(ctx, rid):
                     continue
                 if kind == 'value':
                     names = _value_calls(f, info)
-                    if names and not (names - {'predicate_wrapper', 'poll', 'into_future', 'not'}):
+                    # the message's own predicate called in place (`predicate_wrapper` inlined): an indirect call of a value whose
+                    # type is the client's predicate over the active-blob statistics
+                    ind = [o for o in info if o.kind == 'call' and 'indirect' in o.data.f]
+                    if ind and all('ActiveBlobStat' in (f.locals[op_local(o.data.f['indirect'])]['s'] if op_local(o.data.f['indirect']) is not None else '') for o in ind):
+                        names = names - {''}
+                        names = names | {'predicate_wrapper'}
+                    if names and not (names - {'predicate_wrapper', 'poll', 'into_future', 'not', 'active_blob_stat'}):
                         continue
                 bad = (i, info if isinstance(info, str) else sorted(_value_calls(f, info)))
                 break
